@@ -14,6 +14,9 @@ MC_StoreQ4 == <<1, 2, 3, 0>>
 MC_KindQ4 == <<"default", "default", "setup", "shared">>
 MC_StoreT == <<1, 2, 3, 4, 0, 0>>
 MC_KindT == <<"default", "default", "setup", "new", "shared", "shared">>
+\* one real instance next to the two inert ones
+MC_StoreI == <<1, 2, 3>>
+MC_KindI == <<"default", "empty", "none">>
 MC_StoreS == <<1, 2, 0>>
 MC_KindS == <<"default", "setup", "shared">>
 MC_Store2 == <<1, 0>>
@@ -22,6 +25,9 @@ MC_Store4 == <<1, 2, 0, 0>>
 \* property maps over keys (a, b): {a:1}, {a:2, b:1}, {b:2}
 MC_Props3 == {<<1, 0>>, <<2, 1>>, <<0, 2>>}
 MC_Props2 == {<<1, 0>>, <<2, 1>>}
+MC_NoDups == {}
+\* a:1 then a:2;  b:2, a:2, b:1
+MC_Dups == {<< <<1, 1>>, <<1, 2>> >>, << <<2, 2>>, <<1, 2>>, <<2, 1>> >>}
 MC_AllKinds == {"push", "root", "disabled", "current"}
 MC_PushRoot == {"push", "root"}
 MC_AllForms == {"guard", "call"}
